@@ -690,6 +690,9 @@ JAX.random = _Random
 JAX.tree_util = _real_jtu
 JAX.Array = SArr
 JAX.config = types.SimpleNamespace(update=lambda *a, **k: None)
+import contextlib as _contextlib  # noqa: E402
+JAX.ensure_compile_time_eval = _contextlib.nullcontext   # (tracing is not represented: DESIGN 2.9-4)
+JAX.named_scope = lambda *a, **k: _contextlib.nullcontext()
 
 
 def _jit(f=None, **kw):
